@@ -6,6 +6,9 @@ MCInit2 == \E mx \in 1..2 : \E mn \in 0..mx : InitWith(mx, mn, MCGated)
 MCInit3 == \E mx \in 1..3 : \E mn \in 0..mx : InitWith(mx, mn, MCGated)
 Spec2 == MCInit2 /\ [][Next]_vars
 Spec3 == MCInit3 /\ [][Next]_vars
+\* bounded task queue: queue_size in 1..2
+MCInitCap == \E mx \in 1..2 : \E mn \in 0..mx : \E cap \in 1..2 : InitWithCap(mx, mn, MCGated, cap)
+SpecCap == MCInitCap /\ [][Next]_vars
 T2 == {1, 2}
 T3 == {1, 2, 3}
 T4 == {1, 2, 3, 4}
